@@ -246,25 +246,40 @@ def crosscheck(contract, recs, repo_src, verif_dir, witness=None, n=8, seed=0):
             sym = sym_neutral(match[1].result, env, match[3])
         except (Unevaluable, Ambiguous, ZeroDivisionError, OverflowError, ValueError):
             continue
-        chosen.append((lv, match[0], sym))
+        clause_vals = {}
+        for k, gterm in match[1].clauses.items():
+            try:
+                clause_vals[k] = bool(zeval(gterm, env, match[3]))
+            except (Unevaluable, Ambiguous, ZeroDivisionError, OverflowError, ValueError):
+                pass
+        chosen.append((lv, match[0], sym, clause_vals))
         if len(chosen) >= n:
             break
     res = {'samples': len(chosen), 'compared': 0, 'agreed': 0, 'disagreements': [], 'candidates': len(cands)}
     if not chosen:
         return res
-    jobs = [{'sidecar': contract['module'], 'contract': contract['name'], 'leaves': lv} for lv, _, _ in chosen]
+    jobs = [{'sidecar': contract['module'], 'contract': contract['name'], 'leaves': lv} for lv, _, _, _ in chosen]
     outs = run_native(jobs, repo_src, verif_dir)
-    for (lv, pi, sym), nat in zip(chosen, outs):
+    res['clauses_compared'] = 0
+    for (lv, pi, sym, clause_vals), nat in zip(chosen, outs):
         if 'error' in nat:
             res['disagreements'].append({'leaves': lv, 'native_error': nat['error']})
             continue
         if not nat.get('pre'):
-            # the symbolic side found a path, i.e. believed the precondition to hold
-            res['disagreements'].append({'leaves': lv, 'note': 'precondition holds symbolically but not natively', 'native': nat})
+            # the symbolic side found a path, i.e. believed the precondition to hold; natively it is evaluated in floating point
+            # with tolerances (e.g. `nonsingular` refuses ill-conditioned matrices), so isolated mismatches are only counted
+            res['pre_mismatch'] = res.get('pre_mismatch', 0) + 1
+            res.setdefault('pre_mismatch_samples', []).append({'leaves': lv, 'pre_error': nat.get('pre_error')})
             continue
         res['compared'] += 1
-        if neutral_equal(sym, nat['outcome']):
+        bad_clauses = {k: (v, nat['clauses'][k]) for k, v in clause_vals.items() if k in nat.get('clauses', {}) and v != nat['clauses'][k]}
+        res['clauses_compared'] += len(clause_vals)
+        if neutral_equal(sym, nat['outcome']) and not bad_clauses:
             res['agreed'] += 1
+        elif bad_clauses:
+            res['disagreements'].append({'leaves': lv, 'path': pi, 'clauses (symbolic, native)': bad_clauses})
         else:
             res['disagreements'].append({'leaves': lv, 'path': pi, 'symbolic': sym, 'native': nat['outcome']})
+    if res.get('pre_mismatch', 0) > max(1, len(chosen) // 2):
+        res['disagreements'].append({'note': 'the precondition holds symbolically but not natively on most samples', 'samples': res['pre_mismatch_samples'][:2]})
     return res
